@@ -583,7 +583,9 @@ class Sample:
         for pos, cov in norm.items():
             if len(cov) == 0:
                 continue
-            coverage.setdefault(pos, {})["_"] = cov
+            # (a copy: out-of-range observations are folded into this list below,
+            # and `norm` itself is what the debug dump stores)
+            coverage.setdefault(pos, {})["_"] = list(cov)
         bounds = min(self.gene.chr_to_ref), max(self.gene.chr_to_ref)
         for (pos, mut), cov in muts.items():
             if pos not in coverage:
